@@ -358,7 +358,49 @@ ExtentIdentities ==
            /\ RootBox(c.root, 0) = c.root
 
 (***************************************************************************)
+(* C19: placement of shape text                                            *)
+(***************************************************************************)
+IsTop(l) == l \in {"tl", "t", "tr"}
+IsBottom(l) == l \in {"bl", "b", "br"}
+IsLeft(l) == l \in {"tl", "l", "bl"}
+IsRight(l) == l \in {"tr", "r", "br"}
+\* text of lines (and with d-text-outside) is pushed outward, otherwise inward
+IsOutside(shape, side) == side = "outside" \/ (side = "default" /\ shape = "line")
+TextAnchor(b, loc, out, off, dx, dy) ==
+    LET p == Loc(b, loc)
+        sx == IF IsLeft(loc) THEN (IF out THEN -off ELSE off) ELSE IF IsRight(loc) THEN (IF out THEN off ELSE -off) ELSE 0
+        sy == IF IsTop(loc) THEN (IF out THEN -off ELSE off) ELSE IF IsBottom(loc) THEN (IF out THEN off ELSE -off) ELSE 0
+    IN <<p[1] + sx + dx, p[2] + sy + dy>>
+\* alignment classes (styles reference): text inside the top edge is
+\* top-aligned, text outside the top edge sits above it: bottom-aligned
+AlignClasses(loc, out, vert) ==
+    LET suffix == IF vert THEN "-vertical" ELSE ""
+        v == IF IsTop(loc) THEN {IF out THEN "d-text-bottom" \o suffix ELSE "d-text-top" \o suffix}
+             ELSE IF IsBottom(loc) THEN {IF out THEN "d-text-top" \o suffix ELSE "d-text-bottom" \o suffix} ELSE {}
+        h == IF IsLeft(loc) THEN {IF out THEN "d-text-right" \o suffix ELSE "d-text-left" \o suffix}
+             ELSE IF IsRight(loc) THEN {IF out THEN "d-text-left" \o suffix ELSE "d-text-right" \o suffix} ELSE {}
+    IN {"d-text"} \cup v \cup h
+
+TextPosCases ==
+    {[fam |-> "textpos", shape |-> sh, box |-> b, loc |-> l, side |-> sd, off |-> o, dx |-> d[1], dy |-> d[2], vert |-> vt,
+      exp |-> TextAnchor(b, l, IsOutside(sh, sd), (IF o = 0 THEN 4 ELSE o), d[1], d[2]),
+      classes |-> AlignClasses(l, IsOutside(sh, sd), vt)] :
+        sh \in {"rect", "circle", "ellipse", "line"}, b \in {B(8, 12, 40, 28), B(-20, -8, -4, 8)}, l \in LocNames,
+        sd \in {"default", "inside", "outside"}, o \in {0, 12}, d \in {<<0, 0>>, <<4, -8>>}, vt \in BOOLEAN}
+
+TextPosIdentities ==
+    c.fam = "textpos" =>
+        \* inward means towards the centre, outward away from it; the centre location never moves
+        /\ c.loc = "c" /\ c.dx = 0 /\ c.dy = 0 => c.exp = Loc(c.box, "c")
+        /\ c.dx = 0 /\ c.dy = 0 /\ IsLeft(c.loc) =>
+              (IF IsOutside(c.shape, c.side) THEN c.exp[1] < c.box.x1 ELSE c.exp[1] > c.box.x1)
+        /\ c.dx = 0 /\ c.dy = 0 /\ IsBottom(c.loc) =>
+              (IF IsOutside(c.shape, c.side) THEN c.exp[2] > c.box.y2 ELSE c.exp[2] < c.box.y2)
+        /\ "d-text" \in c.classes
+
+(***************************************************************************)
 Cases == CASE Family = "solve" -> SolveCases
+           [] Family = "textpos" -> TextPosCases
            [] Family = "contain" -> ContainCases
            [] Family = "conn" -> ConnCases
            [] Family = "extent" -> ExtentCases
